@@ -614,12 +614,13 @@ func (x *Exec) execAppend(fr *Frame, st *State, cc *ssa.CallCommon, pos token.Po
 		oldArr := Select(E, s.Arr)
 		na := x.fresh("appdata", ArrSort(SInt, leaves[i].Sort))
 		k := Term{"k", SInt}
-		// prefix copied
-		x.assume(Term{fmt.Sprintf("(forall ((k Int)) (! (=> (and (<= 0 k) (< k %s)) (= (select %s (at %s k)) (select %s (at %s k)))) :pattern ((select %s (at %s k)))))",
-			s.Len.S, na.S, roff.S, oldArr.S, s.Off.S, na.S, roff.S), SBool})
+		// prefix copied (absolute index k over the new array)
+		x.assume(Term{fmt.Sprintf("(forall ((k Int)) (! (=> (and (<= %s k) (< k (+ %s %s))) (= (select %s k) (select %s (+ %s (- k %s))))) :pattern ((select %s k))))",
+			roff.S, roff.S, s.Len.S, na.S, oldArr.S, s.Off.S, roff.S, na.S), SBool})
 		// appended elements
-		x.assume(Term{fmt.Sprintf("(forall ((k Int)) (! (=> (and (<= 0 k) (< k %s)) (= (select %s (at %s (+ %s k))) %s)) :pattern (%s)))",
-			tLen.S, na.S, roff.S, s.Len.S, srcElem(i, k).S, srcElem(i, k).S), SBool})
+		rel := Sub(k, Add(roff, s.Len)) // position within the appended part
+		x.assume(Term{fmt.Sprintf("(forall ((k Int)) (! (=> (and (<= (+ %s %s) k) (< k (+ %s %s))) (= (select %s k) %s)) :pattern ((select %s k))))",
+			roff.S, s.Len.S, roff.S, n.S, na.S, srcElem(i, rel).S, na.S), SBool})
 		// the element just appended, stated without a quantifier for the common one-element append
 		x.assume(Implies(Gt(tLen, IntLit(0)), Eq(Select(na, At(roff, s.Len)), srcElem(i, IntLit(0)))))
 		// in place: everything outside the appended window is unchanged
@@ -657,8 +658,8 @@ func (x *Exec) execCopy(fr *Frame, st *State, cc *ssa.CallCommon, pos token.Pos)
 		oldArr := Select(E, d.Arr)
 		na := x.fresh("copydata", ArrSort(SInt, leaves[i].Sort))
 		k := Term{"k", SInt}
-		x.assume(Term{fmt.Sprintf("(forall ((k Int)) (! (=> (and (<= 0 k) (< k %s)) (= (select %s (at %s k)) %s)) :pattern ((select %s (at %s k)))))",
-			n.S, na.S, d.Off.S, srcElem(i, k).S, na.S, d.Off.S), SBool})
+		x.assume(Term{fmt.Sprintf("(forall ((k Int)) (! (=> (and (<= %s k) (< k (+ %s %s))) (= (select %s k) %s)) :pattern ((select %s k))))",
+			d.Off.S, d.Off.S, n.S, na.S, srcElem(i, Sub(k, d.Off)).S, na.S), SBool})
 		x.assume(Term{fmt.Sprintf("(forall ((k Int)) (! (=> (or (< k %s) (>= k (+ %s %s))) (= (select %s k) (select %s k))) :pattern ((select %s k))))",
 			d.Off.S, d.Off.S, n.S, na.S, oldArr.S, na.S), SBool})
 		x.heapSet(st, nm, x.define("h", Store(E, d.Arr, na)))
